@@ -382,6 +382,10 @@ def native_replay(hdir, test_src, log_path, modules, timeout_s=600, release=Fals
             m = re.search(r"panicked at ([^\n]*)\n([^\n]*)", text)
             if m:
                 msg = (m.group(1) + " " + m.group(2)).strip()
+            if "concrete_playback.rs" in msg or "Not enough det vals" in text or "concrete values left over" in text:
+                # the playback itself went out of step with the harness (e.g. a stub consumed a symbolic value):
+                # that is NOT a reproduction of the counterexample
+                return True, False, "playback out of step with the native run: " + msg[:200]
             return True, True, msg
         if "test result: ok" in text:
             return True, False, "test passed natively"
